@@ -266,7 +266,9 @@ func routingTableCase(rt *rapid.T, rec *evid.Rec, names []string, nums []uint8) 
 	}
 	rec.Case(labels["a_specific_prefix"] && labels["a_routed"], fmt.Sprint("A", got, len(raws)), ls...)
 	rec.Eval(len(raws) - 1)
-	rec.Sample(func() any { return map[string]any{"part": "routing table", "packets": len(raws), "routed": trunc(want)} })
+	rec.Sample(func() any {
+		return map[string]any{"part": "routing table", "packets": len(raws), "routed": trunc(want)}
+	})
 }
 
 const sigUndecodable = "C42/undecodable-upper-layer-dropped"
